@@ -383,7 +383,18 @@ var transientKeys = []string{"transient_params", evmtypes.TransientKey, feemarke
 // without committing: real EndBlocker, transient stores cleared (what Commit does to them),
 // real BeginBlock (height check skipped).
 func (w *World) VirtualNextBlock(dt time.Duration, absent map[int]bool, evidence []abci.Misbehavior) (abci.ResponseEndBlock, abci.ResponseBeginBlock) {
-	eb := w.App.EndBlock(abci.RequestEndBlock{Height: w.Header.Height})
+	eb := w.VirtualEndBlock()
+	bb := w.VirtualBeginBlock(dt, absent, evidence)
+	return eb, bb
+}
+
+// VirtualEndBlock runs the real EndBlock of the open block on the current branch.
+func (w *World) VirtualEndBlock() abci.ResponseEndBlock {
+	return w.App.EndBlock(abci.RequestEndBlock{Height: w.Header.Height})
+}
+
+// VirtualBeginBlock clears the transient stores (as Commit does) and begins the next block.
+func (w *World) VirtualBeginBlock(dt time.Duration, absent map[int]bool, evidence []abci.Misbehavior) abci.ResponseBeginBlock {
 	ctx := w.App.BaseApp.VerifDeliverCtx()
 	for _, name := range transientKeys {
 		k := w.App.GetTKey(name)
@@ -403,10 +414,9 @@ func (w *World) VirtualNextBlock(dt time.Duration, absent map[int]bool, evidence
 	}
 	w.Header.Height++
 	w.Header.Time = w.Header.Time.Add(dt)
-	bb := w.App.BaseApp.VerifBeginBlock(abci.RequestBeginBlock{
+	return w.App.BaseApp.VerifBeginBlock(abci.RequestBeginBlock{
 		Header:              w.Header,
 		LastCommitInfo:      w.CommitInfo(absent),
 		ByzantineValidators: evidence,
 	})
-	return eb, bb
 }
